@@ -27,6 +27,7 @@ GRIDS_QUICK = [
     (dict(x=(0, 2), y=(0, 2)), 'all-care-hint', 70),
     (dict(x=(0, 3), y=(-2, 1)), 'random-care', 40),
     (dict(x=(-4, -1), y=(0, 1), z=(0, 1)), 'random-care', 30),
+    (dict(x=(0, 1), y=(0, 1), z=(0, 1), w=(0, 1)), 'all-but-two', 0),
 ]
 GRIDS_THOROUGH = [
     (dict(x=(0, 1), y=(0, 1), z=(0, 1), w=(0, 1)), 'all-care-hint', 3000),
@@ -55,7 +56,7 @@ def families(tier, seed):
     for gi, (decl, mode, n) in enumerate(grids):
         for be in ('cudd',) + (('autoref',) if gi < 2 else ()):
             # split large families
-            parts = 1 if (n and n <= 80) or len(decl) <= 2 else 8
+            parts = 1 if (n and n <= 80 and mode != 'all-but-two') or len(decl) <= 2 else 8
             for part in range(parts):
                 out.append(dict(name=f'{WHAT} bounded {decl} {mode} n={n or "all"} [{be}] part {part}/{parts}',
                                 run=_part(decl, mode, seed, n, be, part, parts), label='bounded'))
